@@ -112,15 +112,17 @@ def build_all(targets, jobs=None):
     return out
 
 
-def clean_old(keep=3):
-    """remove stale cache directories (older tree hashes)"""
+def clean_old(keep=4, min_age_s=4 * 3600):
+    """remove stale cache directories (older tree hashes); never one that may still be in use"""
     if not os.path.isdir(BUILD):
         return
     ds = [os.path.join(BUILD, d) for d in os.listdir(BUILD) if len(d) == 16]
     ds.sort(key=lambda d: os.path.getmtime(d), reverse=True)
     import shutil
+    now = time.time()
     for d in ds[keep:]:
-        shutil.rmtree(d, ignore_errors=True)
+        if now - os.path.getmtime(d) > min_age_s:
+            shutil.rmtree(d, ignore_errors=True)
 
 
 def run_scenarios(binary, scenarios, env=None):
